@@ -43,7 +43,15 @@ structure GObject where
   name : String
   reserved : Bool := false
   fields : List GField
+  /-- the other boolean attributes of `codegen.Object` that hold for this object and that a template can read in a
+      guard: `"Root"` (`Object.Root`: a root of the schema - query, mutation or subscription) and `"Stream"`
+      (`Object.Stream`: the subscription root). The pair switch below does not look at them: the documented binding
+      gives every non-reserved field of every non-reserved object its function, whatever kind of object it is. -/
+  attrs : List String := []
   deriving Repr
+
+/-- `$object.<a>` for the attributes listed in `GObject.attrs` -/
+def GObject.has (o : GObject) (a : String) : Bool := o.attrs.contains a
 
 structure Arm where
   labels : List (String × String)
